@@ -66,6 +66,10 @@ CLAIMED = {
          "Machine-checked for all fault indices, programs and schedules of the model (safety); 'stop and abort still return' by the hang oracle over explored schedules (partial: liveness needs fairness).",
          "Trusted: as C07; faults are scripted for the first run of a device.",
          "DESIGN.md section 5, C09"),
+ "C10": ("lean-filter", "Lean 4 theorems over a frame-level model of filter.c's process_data / video_filter_thread with exact integer sums: for every window size k >= 2, input sequence, batching of the input (= every schedule of source against filter at this layer) and previous ring contents the emitted frames are exactly the window sums of `windows k input` with the first frame's id, at most one trailing frame, nothing skipped or counted twice, independent of what the accumulator region held, every partial sum below 2^24 for the integer types and k within the stated limits; refusal / shape change / reset / k < 2 branches stated separately; tie: differential correspondence of the real filter.c (included into a single-threaded harness with real channel.c on small dirty rings) against the compiled model, float32 bit patterns compared via exact rational rounding, harness-side mean oracle; pipeline level: the whole runtime on detsched with averaging (classes avg/avgmon/avgabort) under random schedules with storage/monitor oracles",
+         "Machine-checked for the integer layer (sums, windows, ids, batching independence); float32 arithmetic is in the trusted base (adds integers below 2^24 exactly; one rounded multiply by fl(1/k)); schedules of filter against sink and monitor are explored on the implementation only.",
+         "Trusted: Lean kernel; binary32 semantics as stated; planes = channels = 1; detsched + mock driver for the pipeline level. Known finding: windows with k*max|sample| >= 2^24 (known_findings.json).",
+         "DESIGN.md section 5, C10"),
 }
 PLANNED = {}
 ALL = ["C%02d" % i for i in range(1, 19)]
@@ -110,6 +114,8 @@ def main():
             {"name": "lean-simcam", "path": "lean/AcqVerif/Simcam", "serves_properties": ["C17"], "kind_free_text": "simulated camera configuration/buffer-extent model; harness harness/simcam_shape"},
             {"name": "lean-simconc", "path": "lean/AcqVerif/SimConc", "serves_properties": ["C18"], "kind_free_text": "simulated camera thread-protocol model; harness harness/simcam_conc on detsched"},
             {"name": "lean-runtime", "path": "lean/AcqVerif/Runtime", "serves_properties": ["C04", "C06", "C07", "C08", "C09", "C10"], "kind_free_text": "M1: guarded-command model of the source/filter/sink/client threads over the channel model, HAL device states, scripted faults (Model, Client, Init); invariants per action family (Inv, TInv/*, Cam/*, Clean); driver lean/Driver/RuntimeMain.lean; harness harness/runtime (real runtime on detsched + mock driver); engine checks/rtx.py"},
+            {"name": "lean-filter", "path": "lean/AcqVerif/Filter", "serves_properties": ["C10"], "kind_free_text": "frame-level model of filter.c (Model, Spec, Lemmas, Bound); driver lean/Driver/FilterMain.lean; harness harness/filter/h_filter.c"},
+            {"name": "lean-control", "path": "lean/AcqVerif/Control", "serves_properties": ["C08"], "kind_free_text": "M2: control-plane model of acquire.c (configure/start/stop/abort/shutdown, device open/close/set/start/stop per API call); driver lean/Driver/ControlMain.lean; correspondence checks/c08m2.py on harness/runtime"},
             {"name": "lean-sprops", "path": "lean/AcqVerif/SProps", "serves_properties": ["C13"], "kind_free_text": "StorageProperties heap model; harness harness/props"},
         ],
         "checks": checks,
